@@ -19,6 +19,7 @@ def gen_case(rng, cfg):
             default_p=cfg.get("default_p", 0.0), glob_p=cfg.get("glob_p", 0.0), trx_p=cfg.get("trx_p", 0.0))
     if cfg.get("no_try_p") and rng.random() < cfg["no_try_p"]:
         g.no_try = True
+    g.after_call_p = cfg.get("after_call_p", 0.0)
     ncells = rng.randint(cfg.get("min_cells", 2), cfg.get("max_cells", 6))
     cells, refs = g.program(ncells)
     if cfg.get("all_cached"):
